@@ -515,6 +515,7 @@ func runC10(c *Ctx) {
 	}
 	c.NotDec = []string{"equivalence with a reference EVM (value-level)", "termination", "absence of implicit run-time panics in general", "gas constants"}
 	c.Floors["T"] = 500
+	c10Round3(c)
 
 	entries := c.parseJumpTable("kvm/instruction_set.go", "newV1InstructionSet")
 	alias := newAliasAn(c.P)
